@@ -681,6 +681,20 @@ def fan_scenarios(seed, tier):
             [{"op": "inject", "m": 50 + i} for i in range(4)])
         add(cap, [{"op": "spawn", "c": "a"}, {"op": "stop", "c": "a"}] + burst + [{"op": "spawn", "c": "b"}, {"op": "despawn", "c": "a"}] +
             [{"op": "inject", "m": 50 + i} for i in range(3)])
+        # a round blocked on a consumer that stopped reading, OTHER consumers detached meanwhile (their removal has to wait
+        # for the round), then the blocker detached: the round goes on over outputs that are being removed
+        for rep in range(5):
+            others = ["b", "c", "d"][:1 + rep % 3]
+            add(cap, [{"op": "spawn", "c": x} for x in ["a"] + others] + [{"op": "stop", "c": "a"}] + burst +
+                [{"op": "despawn", "c": x} for x in others] + [{"op": "despawn", "c": "a"}, {"op": "spawn", "c": "e"}] +
+                [{"op": "inject", "m": 60 + i} for i in range(3)])
+        # four consumers that all stopped reading, a round blocked on the first full one, all four detached one after the
+        # other: each removal frees one blocked delivery while earlier removals are still waiting to close their channels
+        for rep in range(4):
+            four = ["a", "b", "c", "d"]
+            rng.shuffle(four)
+            add(cap, [{"op": "spawn", "c": x} for x in four] + [{"op": "stop", "c": x} for x in four] + burst +
+                [{"op": "despawn", "c": x} for x in four] + [{"op": "spawn", "c": "e"}] + [{"op": "inject", "m": 60 + i} for i in range(3)])
     n = 150 if tier == "quick" else 3000
     names = ["a", "b", "c", "d"]
     for _ in range(n):
@@ -1299,6 +1313,18 @@ def c16(pid, tier, replay):
         held = [[{"ev": "press", "k": nk[(i + j) % len(nk)]} for j in range(3)] + [{"ev": "disconnect"}] for i in range(8)]
         iso_batches.append({"cfg": b0["cfg"], "cfgmode": "literal", "sub": b0.get("sub", ""), "walks": held})
         iso_batches.append({"cfg": b0["cfg"], "cfgmode": "literal", "sub": b0.get("sub", ""), "walks": held[::-1]})
+    # devices of one model share one configuration object: eight gamepads on one parsed configuration, each moving axes
+    # that take their dead-zone from the handler's default, from the first event on
+    import random as _r
+    rg = _r.Random(vlib.seed() * 17 + 3)
+    axc = devdrivers.base_cfg(dChan=3, maps=[{"name": "M1", "keys": {}, "axes": {
+        "ABS_X": devdrivers.axis("cc", cc=1, dzn=1, dzd=10, dzsrc="handler"), "ABS_Y": devdrivers.axis("pitch_bend", dzn=1, dzd=10, dzsrc="handler"),
+        "ABS_Z": devdrivers.axis("cc", cc=2, ccNeg=3, bidi=True, dzn=1, dzd=10, dzsrc="handler"),
+        "ABS_RX": devdrivers.axis("key", note=60, noteNeg=62, bidi=True, dzn=1, dzd=10, dzsrc="handler")}}],
+        axinfo={a: {"min": -128, "max": 127} for a in ("ABS_X", "ABS_Y", "ABS_Z", "ABS_RX")})
+    axw = [[{"ev": "axis", "a": rg.choice(["ABS_X", "ABS_Y", "ABS_Z", "ABS_RX"]), "raw": rg.choice([-128, 127, 0, 64, -64, 100])} for _ in range(40)]
+           + [{"ev": "disconnect"}] for _ in range(8)]
+    iso_batches.append({"cfg": axc, "cfgmode": "literal", "sub": "", "walks": axw})
     bp = scr.fresh("iso") + ".json"
     with open(bp, "w") as f:
         json.dump(iso_batches, f)
